@@ -233,11 +233,17 @@ def execute(scn):
             yield X.ValidationError("dsim variant keyword %s rejects %r" % (name, instance))
         return kw
 
+    # at most one registration per history uses the bare-fragment id (same-id re-registration is never generated)
+    bare_step = next((j for j, o in enumerate(scn["ops"])
+                      if o["op"] in ("create", "validates") and o["a"] % 11 == 5), None)
+
     def uid_of(op, step):
         # ids are deliberately *related* to each other: URL forms that differ by a trailing slash, by one more
         # path segment, by a shared prefix - distinct ids all the same, each must select its own class only
         form = op["a"] % 5
         n = step
+        if step == bare_step:
+            return "#"      # a metaschema whose id is a bare empty fragment: truthy, yet it normalises to ""
         if form == 0:
             return "http://dsim.test/meta/%d" % n
         if form == 1:
@@ -251,7 +257,7 @@ def execute(scn):
     def make_class(op, step, version):
         base = drafts[op["base"]]
         uid = uid_of(op, step)
-        if op["id_hash"]:
+        if op["id_hash"] and uid != "#":
             uid += "#"
         idkw = "id" if op["base"] in ("draft3", "draft4") else "$id"
         if op["meta"] == "base":
